@@ -241,6 +241,12 @@ func makeAccumulatorFunc(expr parser.ItemType) (newAccumulatorFunc, error) {
 				AddFunc: func(v float64) {
 					hasValue = true
 					count++
+					if count == 1 {
+						// Like the reference engine, the first sample only sets the mean
+						// (so that a single NaN or Inf member has a deviation of zero).
+						mean, cMean = v, 0
+						return
+					}
 					delta := v - (mean + cMean)
 					mean, cMean = function.KahanSumInc(delta/count, mean, cMean)
 					aux, cAux = function.KahanSumInc(delta*(v-(mean+cMean)), aux, cAux)
@@ -267,6 +273,12 @@ func makeAccumulatorFunc(expr parser.ItemType) (newAccumulatorFunc, error) {
 				AddFunc: func(v float64) {
 					hasValue = true
 					count++
+					if count == 1 {
+						// Like the reference engine, the first sample only sets the mean
+						// (so that a single NaN or Inf member has a deviation of zero).
+						mean, cMean = v, 0
+						return
+					}
 					delta := v - (mean + cMean)
 					mean, cMean = function.KahanSumInc(delta/count, mean, cMean)
 					aux, cAux = function.KahanSumInc(delta*(v-(mean+cMean)), aux, cAux)
